@@ -6,6 +6,12 @@ from . import expr as _expr  # attaches methods
 from . import builtins_ as _b
 
 
+class _Everything(frozenset):
+    """fork_functions="*": every symbolic branch forks the path (used where the result must be concrete per path, e.g. emitted text)"""
+    def __contains__(self, x):
+        return True
+
+
 class RunResult:
     def __init__(self, eng, value, env):
         self.pc = list(eng.pc)
@@ -68,7 +74,7 @@ def explore(program, body_fn, contracts=None, hooks=None, max_runs=4000, loop_co
                     raise Unsupported(f"more than {max_runs} decision paths")
                 eng = program.engine(contracts, hooks)
                 eng.loop_contracts = dict(loop_contracts or {})
-                eng.fork_functions = frozenset(fork_functions)
+                eng.fork_functions = _Everything() if fork_functions == "*" else frozenset(fork_functions)
                 eng.forced_sites = set(forced)
                 eng.oracle = Oracle(prefix)
                 eng.frames.append(Frame("<harness>", {}, []))
